@@ -20,12 +20,23 @@ Proof.
   apply IH. eapply first_enabled_reachable; eauto.
 Qed.
 
+Lemma apply_label_reachable caps s l s' :
+  reachable caps s -> apply_label s l = Some s' -> reachable caps s'.
+Proof.
+  unfold apply_label. intros R. destruct (step s l) as [s1| |] eqn:E; try discriminate.
+  intros H. assert (Es : s' = advance fuel0 s1) by congruence. rewrite Es.
+  apply (advance_reachable caps fuel0 s1). eapply reach_step; eauto.
+Qed.
+
 Theorem apply_op_reachable caps s o s' :
   reachable caps s -> apply_op s o = Some s' -> reachable caps s'.
 Proof.
-  unfold apply_op. intros R. destruct (step s (op_label o)) as [s1| |] eqn:E; try discriminate.
-  intros H. assert (Es : s' = advance fuel0 s1) by congruence. rewrite Es.
-  apply (advance_reachable caps fuel0 s1). eapply reach_step; eauto.
+  intros R H. destruct o; cbn [apply_op] in H;
+    try (eapply apply_label_reachable; [exact R | exact H]).
+  - destruct (apply_label s LCallStop) as [s1|] eqn:E1; [|discriminate].
+    eapply apply_label_reachable; [eapply apply_label_reachable; [exact R | exact E1] | exact H].
+  - destruct (apply_label s LCallStop) as [s1|] eqn:E1; [|discriminate].
+    eapply apply_label_reachable; [eapply apply_label_reachable; [exact R | exact E1] | exact H].
 Qed.
 
 (** All states visited while replaying a controlled case are reachable. *)
